@@ -246,3 +246,22 @@ def register(ex):
         ex.probe(name, "Nat", str(dflt), f"{rel.split('envs/')[1]}:{cls}.__init__ default `{arg}` (obligation "
                  f"`Rl4co.{'Flp' if 'Flp' in name else 'Mcp' if 'Mcp' in name else 'Dpp'}.gen_defaults_wf`)",
                  int_default(rel, cls, arg))
+
+    # ---- the instance field `orig_distances`: `get_distance_matrix(locs)` = p-norm of broadcast differences ----
+    def dist_norm_p():
+        tree = ex.parse("rl4co/utils/ops.py")
+        f = ex.find_function(tree, "get_distance_matrix") if tree else None
+        if f is None:
+            return None
+        hits = []
+        for n in ast.walk(f):
+            if isinstance(n, ast.Call) and isinstance(n.func, ast.Attribute) and n.func.attr == "norm" \
+                    and isinstance(n.func.value, ast.BinOp) and isinstance(n.func.value.op, ast.Sub) \
+                    and ex.norm(n.func.value.left) == "locs[...,:,None,:]" and ex.norm(n.func.value.right) == "locs[...,None,:,:]":
+                for k in n.keywords:
+                    if k.arg == "p" and isinstance(k.value, ast.Constant) and isinstance(k.value.value, int):
+                        hits.append(k.value.value)
+        return str(hits[0]) if len(hits) == 1 else None
+
+    ex.probe("flpDistNormP", "Nat", "2", "utils/ops.py:get_distance_matrix  `(locs[..., :, None, :] - locs[..., None, :, :]).norm(p=2, dim=-1)` — "
+             "order of the norm (unfolded by `Flp.distOf_sq`)", dist_norm_p)
